@@ -68,6 +68,9 @@ func VerifC11Parse() {
 	}
 	vsymCover("parser-error")
 	vsymAssert(cmd.Tag == p.LastParsedTag(), "BAD response must carry the tag of the offending line")
+	// the session's command reader dispatches STARTTLS on the returned payload before it looks at the error:
+	// a line that is answered BAD must not also be executed
+	vsymAssert(cmd.Payload == nil, "a rejected line yields no command to execute")
 }
 
 // VerifC11Nesting: the call depth of the parser must not grow with the nesting of the input (a stack overflow is
